@@ -370,6 +370,36 @@ impl Env {
     }
 }
 
+/// two raw dumps describe the same hierarchy up to the physical addresses chosen for the tables
+fn same_hierarchy(a: &BTreeMap<u16, RNode>, b: &BTreeMap<u16, RNode>, path: &mut Vec<u16>) -> Result<(), String> {
+    for k in a.keys().chain(b.keys()) {
+        path.push(*k);
+        let r = match (a.get(k), b.get(k)) {
+            (Some(RNode::Table { raw: ra, kids: ka, .. }), Some(RNode::Table { raw: rb, kids: kb, .. })) => {
+                if ra & FLAGS != rb & FLAGS {
+                    Err(format!("table entry at {:?}: flags {:#x} vs {:#x}", path, ra & FLAGS, rb & FLAGS))
+                } else {
+                    same_hierarchy(ka, kb, path)
+                }
+            }
+            (Some(x), Some(y)) if x == y => Ok(()),
+            (x, y) => Err(format!("entry at {:?}: {:x?} vs {:x?}", path, x.map(short_node), y.map(short_node))),
+        };
+        path.pop();
+        r?;
+    }
+    Ok(())
+}
+
+fn short_node(n: &RNode) -> String {
+    match n {
+        RNode::Leaf { raw } => format!("Leaf({:#x})", raw),
+        RNode::Table { raw, .. } => format!("Table({:#x})", raw),
+        RNode::Dangling { raw } => format!("Dangling({:#x})", raw),
+        RNode::Garbage { raw } => format!("Garbage({:#x})", raw),
+    }
+}
+
 /// the accessors of the three mappers hand out the table / parameters the mapper was built on
 fn accessors(env: &Env, rep: &mut Report) {
     let root = env.arena.root_ptr() as usize;
@@ -1647,6 +1677,8 @@ pub fn run_history_ext(kind: Kind, r: &mut Rng, rep: &mut Report, focus: &str, l
     let u = universe(r, env.rec);
     rep.count("histories", 1);
     accessors(&env, rep);
+    let saved0 = if !ext && !cfg!(miri) { Some(save(&env)) } else { None };
+    let mut lifetime_trace: Vec<(Op, String)> = Vec::new();
     for _ in 0..len {
         let mut op = gen_op(r, &env, &u, focus);
         if env.ext {
@@ -1698,6 +1730,70 @@ pub fn run_history_ext(kind: Kind, r: &mut Rng, rep: &mut Report, focus: &str, l
         if res.violated {
             rep.count("histories_abandoned_after_violation", 1);
             return;
+        }
+        lifetime_trace.push((op.clone(), res.out.short()));
+    }
+    // A mapper may be kept for a whole history, not built afresh for every call: the same calls through ONE mapper object,
+    // from the same initial memory and allocator state, must report the same outcomes and leave the same hierarchy
+    // (up to the frames chosen for tables). In-domain histories that were not de-synchronised only.
+    if let Some(s0) = saved0 {
+        if !env.desynced && !lifetime_trace.is_empty() {
+            let root = env.arena.root_phys();
+            let first = hwwalk::dump_skip(&env.arena.st(), root, env.rec);
+            let hist = env.history.clone();
+            let model_end = env.model.clone();
+            restore(&mut env, s0);
+            {
+                let mut st = env.arena.st();
+                st.begin_call();
+                st.fail_at = None;
+            }
+            crate::util::fault_means("C09", format!("{}|history-through-one-mapper-object|fatal-fault-in-mapper-code", kind.name()), J::obj(vec![("env", J::s(env.desc.clone()))]));
+            let outs: Result<Vec<String>, String> = env.bracket(|| {
+                catch_msg(|| {
+                    let mut alloc = env.arena.allocator();
+                    with_mapper!(env, |m| {
+                        let mut v: Vec<String> = Vec::new();
+                        for (op, _) in lifetime_trace.iter() {
+                            // a panic ends one call, not the replay (the mapper object lives on, as after catch_unwind)
+                            let o = match catch_msg(|| exec_on(&mut m, op, &mut alloc)) {
+                                Ok(o) => o,
+                                Err(msg) => Out::Panic(msg),
+                            };
+                            v.push(o.short());
+                            // the software MMU's on-demand pages are its TLB: flushed between calls, as after every call of
+                            // the per-call runs (the mapper keeps only the address of the level-4 table)
+                            #[cfg(not(miri))]
+                            if env.kind == Kind::Recursive {
+                                let mp = &**env.mmu.as_ref().unwrap() as *const SoftMmu as *mut SoftMmu;
+                                unsafe {
+                                    (*mp).flush();
+                                    let _ = (*mp).take_log();
+                                }
+                            }
+                        }
+                        v
+                    })
+                })
+            });
+            crate::util::fault_means_nothing();
+            env.last_pf.borrow_mut().clear();
+            rep.count("histories_replayed_through_one_mapper_object", 1);
+            rep.eval();
+            let second = hwwalk::dump_skip(&env.arena.st(), root, env.rec);
+            let tail = |i: usize| J::A(lifetime_trace[i.saturating_sub(8)..=i.min(lifetime_trace.len() - 1)].iter().map(|(o, out)| J::obj(vec![("op", o.to_json()), ("outcome_with_a_fresh_mapper_per_call", J::s(out.clone()))])).collect());
+            match outs {
+                Err(m) => rep.violation_for("C01", &format!("{}|history-through-one-mapper-object|panic", kind.name()), J::obj(vec![("env", J::s(env.desc.clone())), ("panic", J::s(m))])),
+                Ok(o2) => {
+                    if let Some(i) = (0..o2.len()).find(|&i| o2[i] != lifetime_trace[i].1) {
+                        rep.violation_for("C01", &format!("{}|{}|history-through-one-mapper-object|outcome-differs-from-fresh-mapper-per-call", kind.name(), lifetime_trace[i].0.name()), J::obj(vec![("env", J::s(env.desc.clone())), ("step", J::U(i as u64)), ("outcome_with_one_mapper_object", J::s(o2[i].clone())), ("calls_up_to_there", tail(i))]));
+                    } else if let Err(d) = same_hierarchy(&first.kids, &second.kids, &mut Vec::new()) {
+                        rep.violation_for("C01", &format!("{}|history-through-one-mapper-object|tables-differ-from-fresh-mapper-per-call", kind.name()), J::obj(vec![("env", J::s(env.desc.clone())), ("difference(first = fresh mapper per call)", J::s(d)), ("last_calls", tail(lifetime_trace.len() - 1))]));
+                    }
+                }
+            }
+            env.model = model_end;
+            env.history = hist;
         }
     }
     if rep.want_sample() {
